@@ -148,4 +148,41 @@ theorem C05_dispatch_table : ∀ t, t < 64 →
 example : (parseFlat ⟨id, fun _ => none, some⟩ [0x22, 0xFF, 0xFF, 0xFF, 0xFF, 1, 2]).1 = .fail .tooLarge := by
   decide
 
+/-- **The read loop ends on every finite stream**: once the fuel exceeds the stream length more fuel
+changes nothing — whatever the dispatcher answers — and the loop dispatches at most one packet per
+byte of the stream. -/
+theorem C05_loop_terminates (c : Codec) (disp : Nat → Bytes → Bool) (bs : Bytes) (f : Nat) (hf : bs.length < f) (k : Nat) :
+    loopRun c disp (f + k) bs = loopRun c disp f bs ∧ loopRun c disp f bs ≤ bs.length := by
+  induction f generalizing bs with
+  | zero => omega
+  | succ f ih =>
+    rw [show f + 1 + k = (f + k) + 1 by omega]
+    unfold loopRun
+    cases h : parseFlat c bs with
+    | mk out r =>
+      cases out with
+      | fail e => simp
+      | pkt t b =>
+        have hp := parseFlat_progress c bs t b r h
+        simp only
+        split
+        · obtain ⟨h1, h2⟩ := ih r (by omega)
+          refine ⟨by rw [h1], by omega⟩
+        · exact ⟨rfl, by omega⟩
+
+/-- The model's observation of the loop satisfies the predicate applied to the real loop. -/
+theorem C05_loop_main (c : Codec) (disp : Nat → Bytes → Bool) (bs : Bytes) :
+    holdsLoop bs ⟨loopRun c disp (bs.length + 1) bs, true, true, 0⟩ = true := by
+  have h := (C05_loop_terminates c disp bs (bs.length + 1) (by omega) 0).2
+  simp [holdsLoop, h]
+
+/-- T2 tie: the decisions of the loop and of its read step, in source order. -/
+theorem cond_connectionReadLoop :
+    Gen.Cond.connectionReadLoop = ["b.checkAndHandleStreamMode(state)", "shouldReturn", "shouldContinue",
+      "b.handlePacketAndCheckModeSwitch(state, pkt)"] := by decide
+theorem cond_readPacketWithTimeout :
+    Gen.Cond.readPacketWithTimeout = ["err != nil", "b.isTimeoutError(err)", "err != io.EOF"] := by decide
+theorem skel_handleConnection :
+    Gen.Skel.handleConnection = ["defer b.cleanupConnection", "b.initializeConnection", "b.connectionReadLoop"] := by decide
+
 end Tunnox.C05
